@@ -507,6 +507,11 @@ func c05R6(c *Ctx) {
 						if x.Call.Value == v {
 							released = "deferred in the same function"
 						}
+					case *ssa.Return:
+						// handed back to the caller as is: every caller defers it
+						if i := returnedAt(fn, v); i >= 0 && c.everyCallerDefersResult(fn, i) {
+							released = "returned to the callers, each of which defers it"
+						}
 					case *ssa.Store:
 						if x.Val != v {
 							continue
@@ -545,10 +550,14 @@ func c05R6(c *Ctx) {
 											deferred = true
 										}
 									}
+									clo := mc.Fn.(*ssa.Function)
 									if !deferred {
+										// the closure is handed back as the release function: every caller defers it
+										if i := returnedAt(fn, mc); i >= 0 && closureCallsFreeVar(clo, mc, al) && c.everyCallerDefersResult(fn, i) {
+											released = "called by the release function the function returns, which every caller defers"
+										}
 										continue
 									}
-									clo := mc.Fn.(*ssa.Function)
 									for bi, b := range mc.Bindings {
 										if b != ssa.Value(al) {
 											continue
@@ -575,6 +584,98 @@ func c05R6(c *Ctx) {
 		})
 	}
 	c.minCount(rule, "context constructors", n, 4)
+}
+
+// returnedAt: v is result i of every return of fn (-1 otherwise).
+func returnedAt(fn *ssa.Function, v ssa.Value) int {
+	idx := -1
+	ok := true
+	n := 0
+	eachInstr(fn, func(r instrRef) {
+		ret, isRet := r.I.(*ssa.Return)
+		if !isRet {
+			return
+		}
+		n++
+		here := -1
+		for i, x := range retResults(ret) {
+			if x == v {
+				here = i
+			}
+		}
+		if here < 0 || (idx >= 0 && idx != here) {
+			ok = false
+		}
+		idx = here
+	})
+	if !ok || n == 0 {
+		return -1
+	}
+	return idx
+}
+
+// closureCallsFreeVar: the closure made by mc calls the function held in the captured cell al on every path.
+func closureCallsFreeVar(clo *ssa.Function, mc *ssa.MakeClosure, al *ssa.Alloc) bool {
+	for bi, b := range mc.Bindings {
+		if b != ssa.Value(al) {
+			continue
+		}
+		fv := clo.FreeVars[bi]
+		found := false
+		eachInstr(clo, func(r instrRef) {
+			if cc := callCommon(r.I); cc != nil {
+				if u, ok := cc.Value.(*ssa.UnOp); ok && u.X == ssa.Value(fv) && executesOnEveryPath(r.I) {
+					found = true
+				}
+			}
+		})
+		return found
+	}
+	return false
+}
+
+// everyCallerDefersResult: fn has callers, is not used as a value, and each call site defers result i.
+func (c *Ctx) everyCallerDefersResult(fn *ssa.Function, i int) bool {
+	if c.usedAsValue(fn) {
+		return false
+	}
+	n := 0
+	all := true
+	for _, f2 := range c.RepoFns {
+		eachInstr(f2, func(r instrRef) {
+			cc := callCommon(r.I)
+			if cc == nil || cc.StaticCallee() != fn {
+				return
+			}
+			n++
+			call, isCall := r.I.(*ssa.Call)
+			if !isCall || call.Referrers() == nil {
+				all = false
+				return
+			}
+			var res ssa.Value = call
+			if fn.Signature.Results().Len() > 1 {
+				res = nil
+				for _, ref := range *call.Referrers() {
+					if ex, ok := ref.(*ssa.Extract); ok && ex.Index == i {
+						res = ex
+					}
+				}
+			}
+			deferred := false
+			if res != nil && res.Referrers() != nil {
+				for _, ref := range *res.Referrers() {
+					if d, ok := ref.(*ssa.Defer); ok && d.Call.Value == res {
+						deferred = true
+					}
+				}
+			}
+			if !deferred {
+				all = false
+			}
+		})
+	}
+	return n > 0 && all
 }
 
 // C05.R7 sub-runs are started with the step's own context.
@@ -648,7 +749,29 @@ func c05R1(c *Ctx) {
 			}
 			isClose := func(in ssa.Instruction) bool {
 				c2 := callCommon(in)
-				return c2 != nil && c2.IsInvoke() && c2.Method.Name() == "Close" && c2.Value == plug
+				if c2 == nil {
+					return false
+				}
+				if c2.IsInvoke() && c2.Method.Name() == "Close" && c2.Value == plug {
+					return true
+				}
+				// a repo helper that is handed the plugin and closes it on every one of its paths (`closeAfterFailure(plugin, …)`)
+				if h := c2.StaticCallee(); h != nil && isRepoFn(h) && len(h.Blocks) > 0 {
+					for i, a := range c2.Args {
+						if a != plug || i >= len(h.Params) {
+							continue
+						}
+						prm := h.Params[i]
+						closesParam := func(in2 ssa.Instruction) bool {
+							c3 := callCommon(in2)
+							return c3 != nil && c3.IsInvoke() && c3.Method.Name() == "Close" && c3.Value == ssa.Value(prm)
+						}
+						if c.findPath(h, nil, closesParam, isReturn) == nil {
+							return true
+						}
+					}
+				}
+				return false
 			}
 			p := c.findPath(fn, call, func(in ssa.Instruction) bool {
 				return isClose(in) || (failBlocks[in.Block()] && idxOf(in) == 0)
